@@ -138,8 +138,6 @@ func classifyDeath(cs *Case, tail, exit string, timedOut bool) *Violation {
 	if cs.Kind == "lib" {
 		where = "lib/" + cs.Lib.Fn
 	}
-	idx := strings.LastIndex(tail, "goroutine ")
-	_ = idx
 	m := reFatal.FindStringIndex(tail)
 	stack := tail
 	if m != nil {
@@ -800,10 +798,16 @@ func main() {
 			"cases_with_this_key": t.violCases[c.key]}
 		if cs.Kind == "net" && v.Event >= 0 && v.Event < len(cs.Events) {
 			rep["failing_event"] = cs.Events[v.Event]
+		} else if cs.Kind == "net" && cs.Target < len(cs.Events) {
+			rep["failing_event"] = cs.Events[cs.Target] // worker died: the event under test
 		} else if cs.Kind == "lib" && len(cs.Lib.Ins) > 0 {
 			rep["failing_input"] = cs.Lib.Ins[0]
 		}
-		r.Report(c.key, v.What+fmt.Sprintf(" [case: ctx=%s template=%s family=%s; %d cases share this key]", cs.Ctx, cs.Tmpl, cs.Family, t.violCases[c.key]), rep)
+		note := ""
+		if cs.Friend {
+			note = " (this case needs a peer that authenticated with a key listed in friends.txt)"
+		}
+		r.Report(c.key, v.What+note+fmt.Sprintf(" [case: ctx=%s template=%s family=%s; %d cases share this key]", cs.Ctx, cs.Tmpl, cs.Family, t.violCases[c.key]), rep)
 	}
 
 	oc := map[string]int{}
@@ -905,5 +909,4 @@ func indent(s string, maxLines int) string {
 	return "    " + strings.Join(ls, "\n    ")
 }
 
-var _ = bytes.Equal
 var _ = hex.EncodeToString
